@@ -144,6 +144,25 @@ func (p *MetadataPersister) MoveHeader(ctx context.Context, oldName string, newN
 	newName = p.getSanitizedPath(ctx, newName)
 	oldName = p.getSanitizedPath(ctx, oldName)
 
+	// Renaming replaces whatever is (or, as a tombstone, was) stored under the new name, which would otherwise collide with the primary key
+	if newName != oldName {
+		if _, err := queries.Raw(
+			fmt.Sprintf(
+				`delete from %v where %v = ? and %v in (select %v from %v where %v = ?);`,
+				models.TableNames.Headers,
+				models.HeaderColumns.Name,
+				models.HeaderColumns.Linkname,
+				models.HeaderColumns.Linkname,
+				models.TableNames.Headers,
+				models.HeaderColumns.Name,
+			),
+			newName,
+			oldName,
+		).ExecContext(ctx, p.sqlite.DB); err != nil {
+			return err
+		}
+	}
+
 	// We can't do this with `dbhdr.Update` because we are renaming the primary key
 	n, err := queries.Raw(
 		fmt.Sprintf(
